@@ -286,6 +286,7 @@ class Function:
             b.noreturn = bd.get("noreturn", False)
             b.preds = []
             self.blocks[b.id] = b
+        self.threaded = self._thread_short_circuits()
         for b in self.blocks.values():
             for s in b.succs:
                 if s is not None:
@@ -302,6 +303,69 @@ class Function:
         self._dom = None
         self._sites = None
         self._locals = None
+
+    def _thread_short_circuits(self):
+        """`if (!(a && b))`, `x = a || b; if (x)`: the compiler's graph computes the logical value in a join block J that
+        the short-circuit edge of a's block enters directly, and J then branches on an expression of that value.  On the
+        short-circuit edge the value is known, so the edge is threaded to the successor J would choose, and in J
+        (now reached only after b was evaluated) the logical value is b's.  Only when J computes nothing else."""
+        n = 0
+        for J in self.blocks.values():
+            if not J.elems or not J.term or "cond" not in J.term or len(J.succs) != 2:
+                continue
+            e0 = J.elems[0]
+            if not (e0 and e0.get("k") == "bin" and e0.get("op") in ("&&", "||")):
+                continue
+            lhs, rhs = e0.get("lhs"), e0.get("rhs")
+            if not (lhs and rhs and lhs.get("k") == "ref" and rhs.get("k") == "ref"):
+                continue
+            if any(e is None or e.get("k") not in ("bin", "un", "ref", "int") for e in J.elems):
+                continue
+            if any(m.get("k") in ("call", "asg", "incdec") for e in J.elems for m in walk(e)):
+                continue
+            A = self.blocks.get(lhs["b"])
+            if A is None or A is J or len(A.succs) != 2 or not A.term or lhs["i"] != len(A.elems) - 1:
+                continue
+            short = 1 if e0["op"] == "&&" else 0
+            if A.succs[short] != J.id or A.succs[1 - short] == J.id:
+                continue
+            others = [b for b in self.blocks.values() if b is not A and J.id in b.succs]
+            if not others:
+                continue
+            known = 0 if e0["op"] == "&&" else 1
+
+            def ev(x, depth=0):
+                if x is None or depth > 20:
+                    return None
+                k = x.get("k")
+                if k == "ref":
+                    if x["b"] != J.id:
+                        return None
+                    if x["i"] == 0:
+                        return known
+                    return ev(J.elems[x["i"]], depth + 1)
+                if k == "int":
+                    return x.get("cv")
+                if k == "un" and x.get("op") == "!":
+                    v = ev(x.get("e"), depth + 1)
+                    return None if v is None else int(not v)
+                if k == "un" and x.get("op") in ("()", "(cast)"):
+                    return ev(x.get("e"), depth + 1)
+                if k == "bin" and x.get("op") in ("==", "!="):
+                    a, b = ev(x.get("lhs"), depth + 1), ev(x.get("rhs"), depth + 1)
+                    if a is None or b is None:
+                        return None
+                    return int((a == b) == (x["op"] == "=="))
+                if x is e0:
+                    return known
+                return None
+            v = ev(J.term["cond"])
+            if v is None:
+                continue
+            A.succs[short] = J.succs[0 if v else 1]
+            J.elems[0] = dict(rhs, l=e0.get("l"))
+            n += 1
+        return n
 
     # -- expression access -------------------------------------------------
     def deref(self, n):
